@@ -79,6 +79,16 @@ def nullify(ex):
     return out
 
 
+def key_inside(ex, rng):
+    """where there is a value destructor and no key destructor, most executions use the layout linked_hash_table.c itself
+    mentions - the key is a field of the value record: once a value's destructor has run its key reads as garbage until
+    the call returns (lhcache_adapter.c kin_mode)"""
+    t = ex[0].split() if ex else []
+    if len(t) == 7 and t[0] == "RESET" and t[3] == "0" and t[4] == "1" and rng.random() < 0.7:
+        return [ex[0] + " 1"] + ex[1:]
+    return ex
+
+
 def lh_random(rng, nops):
     ncls = rng.choice([1, 2, 3, 4, 6])
     dv = rng.randint(0, 1)
@@ -178,8 +188,8 @@ def run(ctx):
     ctx.add_sample({"cache_script": c_execs[-1][:14]})
     # the build directory is shared and pruned by other runs: make sure the executable (still) exists right before use
     exe = prepare(ctx)
-    lh_execs = [nullify(ex) for ex in lh_execs]
-    c_execs = [nullify(ex) for ex in c_execs]
+    lh_execs = [key_inside(nullify(ex), rng) for ex in lh_execs]
+    c_execs = [key_inside(nullify(ex), rng) for ex in c_execs]
     pipeline.drive_and_validate(ctx, exe, lh_execs, "LinkedHash", "LinkedHashTrace", "Trace.cfg", label="lht")
     exe = prepare(ctx)
     pipeline.drive_and_validate(ctx, exe, c_execs, "Cache", "CacheTrace", "Trace.cfg", label="cache")
